@@ -380,7 +380,10 @@ class C08(Engine):
             sigc["cause"] = self._diagnose(name, cc)
             # changes a directory-mtime comparison cannot see: mode changes (of the entry, of a symlink's target, of the
             # directory itself) and entry changes stamped with the very mtime the cache recorded
-            sigc["mtime_blind"] = set(sigc["cause"].split("+")) <= {"chmod", "dirmode", "same_tick"}
+            cs = set(sigc["cause"].split("+"))
+            # (a directory that vanished and came back carries its old mtime: by itself that explains nothing, together with
+            #  one of the three invisible kinds it does not make them visible either)
+            sigc["mtime_blind"] = cs <= {"chmod", "dirmode", "same_tick", "dirgone"} and bool(cs & {"chmod", "dirmode", "same_tick"})
             pend = [sigc["cause"]]
         if isin != found and not (len(want) > 1):
             V("cache.contains", f"`{name} in commands_cache` is {isin} but execvp {'finds ' + str(sorted(map(str, want))) if found else 'finds nothing'} ($PATH={pathstr!r}; pending changes: {pend})", **sigc, stale_positive=isin)
